@@ -224,6 +224,9 @@ def parseEndAns (s : String) : Option (Bool × Bool × Cls × String) :=
 def parseUA : String → Option UA
   | "none" => some {} | "user" => some { a1 := true } | "user2" => some { a2 := true }
   | "both" => some { a1 := true, a2 := true }
+  -- WithAcceptable(nil): alone it installs nothing; before a real function likewise; AFTER a real function the
+  -- pinned code installs `pre(err) || nil(err)` (see `nilAfter` below)
+  | "nil" => some {} | "niluser" => some { a1 := true } | "usernil" => some { a1 := true }
   | _ => none
 
 /-- `-` | `c<k>` | `d<k>` → (cancelAt, deadline) -/
@@ -302,6 +305,25 @@ def runSection (r : Report) (s : Section) : Report := Id.run do
       let ua := if op.inst == 1 then ua1 else ua0
       let envOq : Env := { ctxDone := ctxDone, brkAllow := op.brkAllow,
                            connOk := via != "namedbad", userAccept := ua }
+      -- FINDING (informational, like the exits outside the quantifier): options `WithAcceptable(f), WithAcceptable(nil)`.
+      -- The pinned code then calls the nil function whenever f says "not acceptable": the call leaves by a nil-call
+      -- panic AFTER the transaction has ended as the model says.  With fixes/C14-withacceptable-nil.patch the nil
+      -- option is ignored and the op is checked like any other.  Both are followed.
+      let nilAfter := (if op.inst == 1 then accept1 else accept) == "usernil"
+      if nilAfter && via != "onconn" && kvStr l.obs "ret" "?" == "nilcall" then
+        let envN : Env := { envOq with ctxDead := op.api == "ctxdead" }
+        -- (an exit outside the quantifier either commits or rolls back: both are candidates)
+        let cands := if op.oq == "" then [transactCtx envN op.f op.b]
+          else [transactCtx envN op.f { op.b with fin := .ok }, transactCtx envN op.f { op.b with fin := .panic }]
+        if kvStr l.obs "esc" "?" == "1" && cands.any (fun mN => mN.mark == some false &&
+            kvStr l.obs "log" "?" == renderLog mN.log && kvStr l.obs "runs" "?" == toString mN.runs) then
+          r := r.addCover "finding-nil-option-after-function-PANICS-after-transaction-ended"
+          r := { r with ops := r.ops }
+        else
+          r := r.mismatch s.idx l.idx "a nil-call panic only where the verdict chain reaches the nil function" impl
+          r := r.violation s.idx l.idx s!"clauses=[no-orderly-return] impl=[{impl}] op=[{joinSp l.op}]"
+        continue
+      if nilAfter then r := r.addCover "nil-option-after-function-not-reached-or-ignored"
       if op.oq != "" && (via == "onconn" || envOq.admitted) && op.f.opens
           && (runStmts op.b.cancelAt op.b.deadline 0 op.b.stmts).2.isNone
           && kvStr l.obs "ret" "?" != "is:breaker/says:-" then
